@@ -310,19 +310,20 @@ type fail struct{ law, msg string }
 
 // stats describes what a judged call exercised (for the evidence file).
 type stats struct {
-	runs        int
-	rtlRuns     int
-	ltrRuns     int
-	scripts     int
-	orientMixed bool
-	reading     string
-	x9Skipped   int
-	hasParaSep  bool
-	hasBracket  bool
-	langChanged bool
-	inherited   int // runs without specific-script rune whose script is not Common
-	faces       int
-	ignOnlyRuns int
+	runs         int
+	rtlRuns      int
+	ltrRuns      int
+	scripts      int
+	orientMixed  bool
+	reading      string
+	x9Skipped    int
+	hasParaSep   bool
+	hasBracket   bool
+	bracketPairs int // matched bracket pairs the bracket law judged
+	langChanged  bool
+	inherited    int // runs without specific-script rune whose script is not Common
+	faces        int
+	ignOnlyRuns  int
 }
 
 func maskProgression(d di.Direction) di.Direction {
@@ -509,6 +510,9 @@ func checkLaws(op *Op, in shaping.Input, textCopy []rune, featCopy []shaping.Fon
 			}
 		}
 		st.scripts = len(seen)
+		bf, np := bracketLaw(in, out)
+		fs = append(fs, bf...)
+		st.bracketPairs = np
 	}
 
 	// --- language
@@ -891,6 +895,9 @@ func report(run *vrun.Run, w Witness, res []opResult, flavour string) {
 			if r.st.hasParaSep {
 				cover("text-has=paragraph-separator")
 			}
+			if r.st.bracketPairs > 0 {
+				cover("matched-bracket-pairs-judged=" + bucket(r.st.bracketPairs))
+			}
 			if r.st.hasBracket {
 				cover("text-has=bracket")
 			}
@@ -999,7 +1006,7 @@ func Main() {
 			"both readings of the paragraph level are accepted (forced by Direction, or first strong with Direction as fallback); characters removed by X9 (LRE/RLE/LRO/RLO/PDF/BN) are not judged, their level is not normative",
 			"values that are not Unicode scalar values are treated as U+FFFD by the reference (Go string conversion semantics)",
 			"sub-ranges satisfy 0 <= RunStart <= RunEnd <= len(Text)",
-			"neutrals and brackets: only the weak inheritance law (script Common or a script occurring in the range) is asserted",
+			"neutrals: only the weak inheritance law (script Common or a script occurring in the range) is asserted; matched brackets (Unicode BidiBrackets pairs the library's delimiter table lists, properly nested, in a range that is one left-to-right bidi run): the run of the closing bracket has the script of the run of the opening one",
 		},
 		Floor: run.Pick(200000, 2000000),
 	})
